@@ -520,6 +520,9 @@ func (f *Facts) atomOf(c ssa.Value, pol bool) Atom {
 	case *ssa.Call:
 		name := calleeName(x)
 		var args []string
+		if x.Call.IsInvoke() {
+			args = append(args, f.path(x.Call.Value))
+		}
 		for _, a := range x.Call.Args {
 			args = append(args, f.path(a))
 		}
